@@ -34,6 +34,44 @@ NONBASIC = ('bool', 'date', 'Decimal')
 
 MISSING = 'M'          # row entry: the element has no such attribute / mapping key
 
+# ------------------------------------------------------------------ key names
+# How the attribute / mapping key named in the sort spec is spelled.  The statement speaks of "the
+# key (attribute, mapping key ...)": any name a caller's objects may carry.  Three names per entry
+# (first, second, third key).  'not an identifier' only fits mapping keys.
+NAME_CLASSES = collections.OrderedDict([
+    ('k1,k2', [('k1', 'k2', 'k3')]),
+    ('Capitalised', [('Title', 'Rank', 'Date'), ('Name', 'Id', 'Size')]),
+    ('camelCase', [('sortTitle', 'sortRank', 'modTime'), ('getId', 'portalType', 'isFolderish')]),
+    ('UPPER', [('TITLE', 'RANK', 'DATE'), ('ID', 'NAME', 'K')]),
+    ('underscore/digit', [('sort_key', 'k_2', 'key3'), ('a1', 'B2', 'c_3D')]),
+    ('word of the spec language', [('cmp', 'nocase', 'asc'), ('desc', 'sort', 'reverse'),
+                                   ('Desc', 'ASC', 'Cmp'), ('locale', 'orphan', 'start')]),
+    ('names differing only in case', [('Title', 'title', 'TITLE'), ('k', 'K', 'kK'), ('rank', 'RANK', 'Rank')]),
+    ('non-ASCII', [('Gr\xf6\xdfe', 't\xedtulo', '\xdcn\xefcode'), ('\u0130d', 'stra\xdfe', '\xc9TAT')]),
+    ('not an identifier', [('sort-key', 'Content-Type', 'a.b'), ('my key', '2nd', 'x:y')]),
+])
+NAME_CLASS_LIST = list(NAME_CLASSES)
+MAPPING_ONLY_NAMES = ('not an identifier',)
+# a second attribute / mapping key on every element whose name is a case variant of the key name and
+# whose values are ordered the other way round (and present where the key is missing): it is not
+# named in the spec, so it must not matter
+DECOYS = [None, 'lower', 'upper', 'swapcase', 'capitalize']
+RESERVED_NAMES = ('uid', 'log_', 'snapshot', 'client', 'mapping', 'self')
+
+
+def unquotable(spec):
+    """can the spec be written as an unquoted attribute value?"""
+    return bool(spec) and not any(ch.isspace() or ch in '="' for ch in spec)
+
+
+def decoy_name(name, how, real):
+    if not how:
+        return None
+    d = getattr(name, how)()
+    if d == name or d in real or d in RESERVED_NAMES:
+        return None
+    return d
+
 
 def domain(ktype, small=False):
     return (KEYDOM2 if small else KEYDOM)[ktype]
@@ -346,6 +384,13 @@ def value_of(entry, ktype, small):
     return domain(ktype, small)[entry]
 
 
+def key_names(case):
+    """the attribute / mapping key of every key of the case (k1, k2 ... unless the case says otherwise)."""
+    fields = case.get('fields') or []
+    return [(f[0] if j < len(fields) and fields[j][0] else 'k%d' % (j + 1))
+            for j, f in enumerate(fields)] + ['k%d' % (j + 1) for j in range(len(fields), len(case['ktypes']))]
+
+
 def build(case, log):
     """Build the caller's sequence and the model rows from a JSON-able case."""
     kind = case['kind']
@@ -355,6 +400,9 @@ def build(case, log):
     isort = case['isort']
     rows = []
     seq = []
+    if not isort:
+        names = key_names(case)
+        decoys = [decoy_name(nm, case.get('decoy'), names) for nm in names]
     for idx, entry in enumerate(case['rows']):
         r = Row()
         r.idx = idx
@@ -381,12 +429,17 @@ def build(case, log):
             attrs = {}
             keys = []
             for j, e in enumerate(entry):
-                name = 'k%d' % (j + 1)
+                dn = decoys[j]
+                if dn is not None:
+                    dom = domain(ktypes[j], small)
+                    dv = dom[idx % len(dom)] if e is None or e == MISSING else dom[len(dom) - 1 - e]
+                    attrs[dn] = KeyFn(dv, log) if delivery == 'callable' else dv
+            for j, e in enumerate(entry):
                 v = value_of(e, ktypes[j], small)
                 keys.append(v)
                 if e == MISSING:
                     continue
-                attrs[name] = KeyFn(v, log) if delivery == 'callable' else v
+                attrs[names[j]] = KeyFn(v, log) if delivery == 'callable' else v
             r.keys = keys
             if kind in ('map', 'pairmap'):
                 el = MapElem(attrs)
@@ -457,17 +510,24 @@ def cmp_keys(a, b, fn):
     raise Incomparable((a, b))
 
 
-def pair_problem(x, y, fields, none_last):
+def pair_problem(x, y, fields, none_last, stats=None):
     """x is shown before y.  None if that is allowed, else (symptom, text).
 
     fields: [(fn, direction)], none_last[i]: reading chosen for a /desc field i (see check_order).
+    A key that is None/missing on both sides does not tell the two apart: "lexicographically" the
+    next key of the spec decides; if no key decides, the pair is "in unspecified mutual order" and
+    nothing (not even the input order) is demanded of it.
     """
+    unspecified = False
     for i, (fn, direction) in enumerate(fields):
         a, b = x.keys[i], y.keys[i]
         desc = direction == 'desc'
         if a is None and b is None:
-            return None                       # "in unspecified mutual order"
+            unspecified = True
+            continue
         if a is None or b is None:
+            if unspecified and stats is not None:
+                stats['later'] = stats.get('later', 0) + 1
             none_first = not (desc and none_last[i])
             if (a is None) == none_first:
                 return None
@@ -476,32 +536,38 @@ def pair_problem(x, y, fields, none_last):
         c = cmp_keys(a, b, fn)
         if desc:
             c = -c
+        if c and unspecified and stats is not None:
+            stats['later'] = stats.get('later', 0) + 1     # decided by a key after one missing on both sides
         if c < 0:
             return None
         if c > 0:
             return ('order', 'key %d: %r shown before %r under %s/%s' % (
                 i + 1, a, b, fn or 'cmp', direction or 'asc'))
+    if unspecified:
+        if stats is not None:
+            stats['unspecified'] = stats.get('unspecified', 0) + 1
+        return None                           # "in unspecified mutual order"
     if x.idx < y.idx:
         return None
     return ('stability', 'equal keys %r: input #%d shown before input #%d' % (
         x.keys, x.idx, y.idx))
 
 
-def check_order(shown, fields):
+def check_order(shown, fields, stats=None):
     """All pairs of the shown rows.  Returns (problems, reading) where problems is a list of
     (symptom, text).  For a /desc field the statement leaves open whether None/missing keys stay
     first or are inverted to the end: every combination of readings is tried (one reading per
     field for the whole list) and the best one is reported."""
     descs = [i for i, (fn, d) in enumerate(fields) if d == 'desc']
     best = None
-    for combo in itertools.product((True, False), repeat=len(descs)):
+    for nth, combo in enumerate(itertools.product((True, False), repeat=len(descs))):
         none_last = {}
         for i, c in zip(descs, combo):
             none_last[i] = c
         probs = []
         for p in range(len(shown)):
             for q in range(p + 1, len(shown)):
-                r = pair_problem(shown[p], shown[q], fields, none_last)
+                r = pair_problem(shown[p], shown[q], fields, none_last, stats if nth == 0 else None)
                 if r is not None:
                     probs.append(r)
         if best is None or len(probs) < len(best[0]):
